@@ -882,11 +882,11 @@ def enum_states():
 
 
 def _floors(ctx):
-    if ctx.distinct_nontrivial >= 20 and min(ctx.histogram.get("cache-save=generic", 0), ctx.histogram.get("cache-save=Linux", 0)) < 10:
+    if ctx.distinct_nontrivial >= 16 and min(ctx.histogram.get("cache-save=generic", 0), ctx.histogram.get("cache-save=Linux", 0)) < 10:
         raise common.InfraError("degenerate distribution: crash points inside the writes of the product cache: %d saves of the "
                                 "last flavor's file (generic), %d of Linux" % (ctx.histogram.get("cache-save=generic", 0),
                                                                                ctx.histogram.get("cache-save=Linux", 0)))
-    if ctx.evaluations and ctx.distinct_nontrivial < 20:
+    if ctx.evaluations and ctx.distinct_nontrivial < 16:
         raise common.InfraError("degenerate distribution: %d commands with effects" % ctx.distinct_nontrivial)
     for k in ("cmd=declaretab", "cmd=undeclare-noversion"):
         if ctx.distinct_nontrivial >= 40 and ctx.histogram.get(k, 0) + ctx.histogram.get(k + "+tag", 0) < 2:
@@ -905,9 +905,9 @@ def run(ctx):
     big = ctx.tier == "thorough" or ctx.escalated
     # (2) the ordinary quick portion, first and completely
     done = 0
-    soft = ctx.t0 + (70 if ctx.tier == "quick" else 1e9)        # keeps the quick tier well under 3 minutes
+    soft = ctx.t0 + (45 if ctx.tier == "quick" else 1e9)        # keeps the quick tier under 3 minutes on a loaded machine
     while done < 24 and not ctx.out_of_time() and (time.time() < soft or done == 0):
-        evaluate(ctx, gen_cases(ctx.rng, 4, 8), sample=(ctx.tier == "quick"))
+        evaluate(ctx, gen_cases(ctx.rng, 4, 6), sample=(ctx.tier == "quick"))
         done += 4
     _floors(ctx)
     if not big:
